@@ -84,6 +84,29 @@ CHECKS = {
         note="Models are fixed by declared constant leaves and by a preceding real assume().",
         technique="Lean 4 theorem (mutual induction; reduce's bounds = evaluation on the empty interpretation) + differential correspondence",
         ref="§4 C08"),
+    "C09": dict(
+        text=("Model (Model/Hist.lean): a heap of immutable values, step = (heap unchanged, result = pure function of the "
+              "receiver's value). Theorems (Props/C09.lean): step_heap, run_history_free, same_as_fresh (results of any history "
+              "equal the calls on freshly built objects), leaky_others / leaky_pure_calls / leak_none (the one known impurity, "
+              "modelled by stepLeaky, touches only the receiver, only through assume/evaluate/evaluate_propositions, and only "
+              "when the dictionary names a sub-proposition id). These are true by construction in the model; the assurance "
+              "comes from the correspondence: real objects are driven through seeded histories (incl. hash-/eq-equal twin "
+              "configurators) and after every call the result is compared with the model's pure function of the receiver's "
+              "current snapshot and with a freshly built identical object, and every live object is snapshotted."),
+        note="Known finding F-C09a (listed in known_findings.json) is reported as KNOWN-FINDING and matched exactly against the model's leak(); F-C09b was found by this check and repaired. Calls without a Lean model (errors, to_json, to_b64, solve, select, leafs) are judged by fresh-object comparison and snapshots only.",
+        technique="Lean 4 theorem over a heap/step model (thin) + history-driven differential correspondence with structural snapshots",
+        ref="§4 C09"),
+    "C13": dict(
+        text=("Theorems (Props/C13.lean) about the optimized bit allocation that `shadow` uses for its weights: oba_length, "
+              "oba_pos (every weight >= 1), oba_equal (equal consecutive priorities share a weight), oba_dominates (a new "
+              "priority gets 1 + the sum of all earlier weights, hence strictly more than that sum), oba_mono. Tie: "
+              "py_optimized_bit_allocation_64 (puan-rspy) compared with the model's oba, and ndint_compress compared with the "
+              "model for shadow/prio/rank/first/last/min/max on 1-D, 2-D (both axes) and 3-D batches; oracle: the statement's "
+              "clauses (zeros and signs kept, equal priorities equal weights, order preserved, each weight > sum of all lower "
+              "ones; prio/rank dense rankings; first/last/min/max) checked on the real output per 2-D slice."),
+        note="PARTIAL at the theorem level: dominance/equality/order are proved for the bit allocation over the sorted priority sequence; that shadow's per-column plumbing (last non-zero per column, sorting, sign restoration) feeds it correctly, and the prio/rank/first/last/min/max clauses, rest on the correspondence and the oracle. 64-bit overflow is outside the model (unbounded Int).",
+        technique="Lean 4 theorem (fold invariant) + differential correspondence + clause-by-clause oracle",
+        ref="§4 C13"),
     "C11": dict(
         text=("Theorems (Props/C11.lean, positional model of ge_polyhedron): redRows_sound (reported rows hold at every in-box "
               "point); redCols_forced (a column reported with a value takes it in every in-box solution, value within bounds; "
